@@ -298,7 +298,7 @@ CHECKS = {
         "level": "fault_enumeration",
         "manifest": {
             "technique": "fault-sequence enumeration (complete up to length 2, length 3 in the thorough tier) and property-based generation (rapid) of longer edit sequences, through the real hotReloadManager on a listening socket and through the library ReloadManager with a real compiler and a model server",
-            "level_text": "The watched file starts as a valid version 0 served by a real hotReloadManager on a free port; each edit writes a valid version k, a lexer error, a parser error, a semantic compile error, an empty file or deletes the file, then calls reload() (what the watcher's debounce timer calls) and issues an HTTP GET on the port. After every edit the server must answer (the port is never left unbound) with the most recent version that loaded successfully, and a valid edit must take effect at once; after an empty save either the previous version or the empty module (404) is accepted. Library level: ReloadManager.handleChanges with a parse+compile CompilerInterface and a model server that serves by executing the last bytecode it received, plus injected Reload failures: served version, exactly one ReloadEvent per change with Success iff the edit was valid, application state preserved.",
+            "level_text": "The watched file starts as a valid version 0 served by a real hotReloadManager on a free port; each edit writes a valid version k, a lexer error, a parser error, a semantic compile error, an empty file or deletes the file, then calls reload() (what the watcher's debounce timer calls) and issues an HTTP GET on the port. Every version also declares an input type whose required field alternates with the version and a typed POST route; the failing edits declare a different type of the same name. After every edit the server must answer (the port is never left unbound) with the most recent version that loaded successfully, that version must still accept a body valid for ITS input type, and a valid edit must take effect at once; after an empty save either the previous version or the empty module (404) is accepted. Library level: ReloadManager.handleChanges with a parse+compile CompilerInterface and a model server that serves by executing the last bytecode it received, plus injected Reload failures: served version, exactly one ReloadEvent per change with Success iff the edit was valid, application state preserved.",
             "level_note": "reload() is called directly rather than through fsnotify (event delivery is the OS's, debounce is a timer). 'Unreadable' is modelled by deleting the file because the sandbox runs as root, for whom mode 000 is readable. Whether an empty file counts as a successful load is not fixed by the property, so both readings are accepted.",
         },
         "rule": ("enumerated edit sequences over six edit kinds (length <= 2 quick, <= 3 thorough) and rapid-generated ones up to length 6 (dev server) / 10 (library); non-trivial = the sequence contains a failing edit followed by a request; distinct = hash of the sequence"),
